@@ -443,3 +443,8 @@ def _retuned(ct, tier, seed):
 contract('C06.runtime.retuned', ['optiland/optic.py:Optic.set_index', 'optiland/optic.py:Optic.set_conic', 'optiland/optic.py:Optic.set_radius',
                                  SS_ + ':Surface._trace_real' if 'SS_' in globals() else 'optiland/surfaces/standard_surface.py:Surface._trace_real'],
          ['C06'], custom=_retuned)(lambda c: None)
+
+
+# concrete inputs found by the defect-hunting sub-agents (bounded replay, see contracts/hunt.py)
+from . import hunt as _hunt  # noqa: E402
+_hunt.register('C06')
